@@ -195,6 +195,12 @@ def parse_with_formats(date_string, date_formats, settings):
                     _check_strict_parsing(_get_missing_parts(date_format), settings)
                 except ValueError:
                     continue
+            # the year must be known before a missing day is filled in:
+            # the last day of February depends on it
+            if not ("%y" in date_format or "%Y" in date_format):
+                today = datetime.today()
+                date_obj = date_obj.replace(year=today.year)
+
             missing_month = not any(
                 m in date_format for m in ["%m", "%b", "%B", "%j"]
             )
@@ -211,10 +217,6 @@ def parse_with_formats(date_string, date_formats, settings):
             elif missing_day:
                 period = "month"
                 date_obj = set_correct_day_from_settings(date_obj, settings)
-
-            if not ("%y" in date_format or "%Y" in date_format):
-                today = datetime.today()
-                date_obj = date_obj.replace(year=today.year)
 
             date_obj = apply_timezone_from_settings(date_obj, settings)
 
